@@ -941,6 +941,7 @@ class Library:
                 def dataclass(cls=None, **kw):
                     def apply(c):
                         c.dataclass = 'frozen' if kw.get('frozen') else 'plain'
+                        c.dataclass_eq = bool(kw.get('eq', True))
                         return c
                     return apply(cls) if cls is not None else Native('dataclass()', apply)
                 return N(dataclass)
